@@ -204,6 +204,26 @@ func peerRenegotiate(x *env, serve bool) {
 	s.Close()
 }
 
+func writeDeadlineWrites(x *env, first []byte) {
+	c, s, o := x.c, x.s, x.o
+	if !handshakeQuietly(c, s, o) {
+		return
+	}
+	var wg, pw vsched.WaitGroup
+	spawn(&pw, func() { peerReadAll(s, o) })
+	// (the deadline thread first: "deadline expired, whole Write, deadline lifted" is then one preemption away)
+	spawn(&wg, func() {
+		o.put("wdeadline.past", errs(c.SetWriteDeadline(time.Unix(1, 0))))
+		o.put("wdeadline.none", errs(c.SetWriteDeadline(time.Time{})))
+	})
+	spawn(&wg, func() { n, err := c.Write(first); o.put("write1", fmt.Sprintf("%d/%s", n, errs(err))) })
+	wg.Wait()
+	n, err := c.Write(payB)
+	o.put("write2", fmt.Sprintf("%d/%s", n, errs(err)))
+	c.Close()
+	pw.Wait()
+}
+
 func renegRead(c *tls.Conn, o *obs) {
 	buf := make([]byte, 4) // "pong"; at TLS 1.0 it comes in two records (1/n-1 split)
 	n, err := io.ReadFull(c, buf)
@@ -646,6 +666,11 @@ var scenarios = map[string]scenFn{
 	// after the second handshake under the new keys), or fails.
 	"reneg-read-write":        renegReadWrite,
 	"reneg-served-read-write": renegReadWrite,
+	// S24: the WRITE deadline expires (SetWriteDeadline from another goroutine) while a Write is under way -- possibly
+	// between two transport writes of it (TLS 1.0: the 1-byte record and the rest) -- and is lifted again; a second
+	// Write follows. Whatever Write reports as written must be what the peer gets.
+	"writedeadline-write-write":    func(x *env) { writeDeadlineWrites(x, payA) },
+	"writedeadline-bigwrite-write": func(x *env) { writeDeadlineWrites(x, payBig) },
 	// S21 (TLS 1.3, tickets enabled): the NewSessionTicket the server sent after its Finished is processed
 	// inside the client's Read, concurrently with Write and ConnectionState.
 	"ticket-read-write-state": func(x *env) {
@@ -941,6 +966,59 @@ func judge(j job, res vsched.Result, o *obs) (string, string) {
 				return "peer received a partial or altered payload", fmt.Sprintf("%q", o.peer)
 			}
 		}
+	case "writedeadline-write-write", "writedeadline-bigwrite-write":
+		first := payA
+		if j.Scen == "writedeadline-bigwrite-write" {
+			first = payBig
+		}
+		// what the peer may have got of one Write: all of it when Write returned nil; when it returned an error a
+		// prefix that ends at a record boundary (nothing / the 1-byte record of the TLS 1.0 split / for the
+		// multi-record payload any prefix: record sizes are the implementation's choice) -- or all of it
+		allowed := func(res string, pay []byte, got []byte) (rest []byte, ok bool) {
+			if strings.HasSuffix(res, "/nil") {
+				if res != fmt.Sprintf("%d/nil", len(pay)) || !bytes.HasPrefix(got, pay) {
+					return nil, false
+				}
+				return got[len(pay):], true
+			}
+			if bytes.HasPrefix(got, pay) {
+				return got[len(pay):], true
+			}
+			return got, true // (a shorter authentic prefix is looked for by the caller)
+		}
+		w1, w2 := g("write1"), g("write2")
+		ok := false
+		// the stream must be  P1 || P2  with P1, P2 as above: try every split point that P1's rules allow
+		cands := [][]byte{}
+		if rest, k := allowed(w1, first, o.peer); k {
+			cands = append(cands, rest)
+		}
+		if !strings.HasSuffix(w1, "/nil") {
+			switch {
+			case len(first) > 100: // multi-record payload: any proper prefix
+				l := 0
+				for l < len(first) && l < len(o.peer) && o.peer[l] == first[l] {
+					l++
+				}
+				for k := 0; k <= l; k++ {
+					cands = append(cands, o.peer[k:])
+				}
+			case j.Vers == tls.VersionTLS10 && len(o.peer) >= 1 && o.peer[0] == first[0]:
+				cands = append(cands, o.peer[1:])
+			}
+		}
+		for _, rest := range cands {
+			if strings.HasSuffix(w2, "/nil") {
+				if w2 == fmt.Sprintf("%d/nil", len(payB)) && bytes.Equal(rest, payB) {
+					ok = true
+				}
+			} else if len(rest) == 0 || bytes.Equal(rest, payB) || (j.Vers == tls.VersionTLS10 && bytes.Equal(rest, payB[:1])) {
+				ok = true
+			}
+		}
+		if !ok {
+			return "a Write that returned nil was not delivered intact and in order (write deadline expired and lifted around it)", fmt.Sprintf("write1=%s write2=%s peer.read=%s peer got %s", w1, w2, g("peer.read"), describeWD(o.peer, first))
+		}
 	case "ticket-read-write-state":
 		if g("read") != "pong/nil" {
 			return "data sent after the NewSessionTicket was not received intact", g("read")
@@ -950,6 +1028,14 @@ func judge(j job, res vsched.Result, o *obs) (string, string) {
 		}
 	}
 	return "", ""
+}
+
+func describeWD(got, first []byte) string {
+	l := 0
+	for l < len(first) && l < len(got) && got[l] == first[l] {
+		l++
+	}
+	return fmt.Sprintf("%d bytes: %d-byte prefix of the first payload, then %q", len(got), l, trunc(got[l:]))
 }
 
 // describeStream summarises a long received stream for a witness: length and the runs of it that
@@ -1170,6 +1256,12 @@ func jobsFor(thorough, race bool) []job {
 			if n == "keyupdate-read-write" && !race {
 				pb = 1
 			}
+			if race && (n == "ticket-read-write-state" || n == "write-write-big" || n == "closewrite-write-state" || n == "deadlines-read") {
+				// the longest jobs of the race pass (23-33 s each alone at bound 1, twice that when all cores run
+				// ThreadSanitizer processes: 4k-6.5k schedules / 20 KB of records per execution): bound 0 in quick so that the pass keeps a margin to its end time on a
+				// machine that is not idle; ThreadSanitizer judges by happens-before, bound 1 stays in thorough
+				pb = 0
+			}
 		case n == "fresh-write-read-state" && !race:
 			// 50k-76k schedules at bound 1: bound 2 is out of reach; fresh-read-write goes there instead
 		case race && (n == "ticket-read-write-state" || n == "write-write-big"):
@@ -1210,6 +1302,21 @@ func jobsFor(thorough, race bool) []job {
 		out = append(out, job{Scen: "write-write-big", Vers: tls.VersionTLS10, PB: pbFor("write-write-big"), Race: race})
 		out = append(out, job{Scen: "write-close", Vers: tls.VersionTLS10, PB: pbFor("write-write-big"), Race: race})
 	}
+	// write deadline expiring and lifted around a Write: TLS 1.0 (CBC, the Write is two transport writes), 1.2, 1.3;
+	// bound 1 (thorough 2, and the multi-record payload at TLS 1.2), race pass 1
+	for _, v := range []uint16{tls.VersionTLS10, tls.VersionTLS12, tls.VersionTLS13} {
+		pb := 1
+		if thorough && !race {
+			pb = 2
+		}
+		if race && !thorough && v == tls.VersionTLS12 {
+			continue // quick race pass: TLS 1.0 (two transport writes per Write) and 1.3
+		}
+		out = append(out, job{Scen: "writedeadline-write-write", Vers: v, PB: pb, Race: race})
+		if thorough && v == tls.VersionTLS12 {
+			out = append(out, job{Scen: "writedeadline-bigwrite-write", Vers: v, PB: 1, Race: race})
+		}
+	}
 	// renegotiation exists up to TLS 1.2 only and only the client accepts a HelloRequest: TLS 1.2 and TLS 1.0 (CBC),
 	// client end under test; the second handshake is explored (not quiet): bound 1 (thorough 2), race pass 1
 	for _, v := range []uint16{tls.VersionTLS12, tls.VersionTLS10} {
@@ -1220,10 +1327,13 @@ func jobsFor(thorough, race bool) []job {
 			}
 			if race && !thorough {
 				// quick race pass (an execution costs 5-7 ms under ThreadSanitizer): the getter scenarios, where the
-				// races would be, at bound 1 (served: TLS 1.2 only); Read||Write at TLS 1.2, the served one at bound 0
+				// races would be, at bound 1 (served: TLS 1.2 only); the served Read||Write at TLS 1.2 at bound 0
 				served, state := strings.Contains(n, "-served-"), strings.HasSuffix(n, "-read-state")
 				if v == tls.VersionTLS10 && !(state && !served) {
 					continue
+				}
+				if !served && !state {
+					continue // refused Read||Write: scheduler pass and thorough race pass only
 				}
 				if served && !state {
 					pb = 0
@@ -1268,6 +1378,7 @@ func main() {
 			"Scenarios (each at TLS 1.2 and 1.3 unless noted; PB in the quick tier in brackets, thorough +1): after a quiet handshake: write||write [2], read||write [2], read||close [2], write||close [2], read||SetDeadline [2], CloseWrite||write||ConnectionState [1], peer KeyUpdate during read||write (1.3) [2], read||read [2], " +
 			"peer Close (close_notify) during pending read||write [1], peer transport dropped without close_notify during pending read||write [1], 20000-byte write (several records) || short write [1], write||write at TLS 1.0 with a CBC suite (1/n-1 record split) [1], close||close [1], CloseWrite||read then peer data (half-close) [1], SetDeadline||write [1], SetReadDeadline||SetWriteDeadline||read [1], NewSessionTicket processing inside read||write||ConnectionState (1.3, tickets enabled) [1]; " +
 			"on a FRESH connection (the handshake itself is explored, the peer handshakes on its own thread): handshake||handshake||ConnectionState [1], write||read||ConnectionState with implicit handshakes [1; thorough stays at 1 and adds read||write at 2], write||close [1], close||handshake [1]. " +
+			"WRITE DEADLINE (TLS 1.0/CBC, 1.2, 1.3): SetWriteDeadline(past) then SetWriteDeadline(none) from one thread while another runs Write -- the deadline can expire before any, or between two, transport writes of that Write (TLS 1.0: the 1-byte record and the rest; thorough: a 20000-byte payload at TLS 1.2) --, then a second Write, Close [1, thorough 2]: the peer must get exactly  P1 || P2  where Pi is the whole payload if Write i returned nil and a record-boundary prefix of it if it returned an error. " +
 			"RENEGOTIATION (TLS 1.2 and TLS 1.0/CBC, client under test with Renegotiation=RenegotiateFreelyAsClient, OCSP staple so that the second handshake rewrites Conn.ocspResponse besides version, suite, didResume, serverName, finished values, keys): the peer sends a HelloRequest after the first handshake and the client's Read runs the second handshake (explored, not quiet) while another thread runs {ConnectionState, VerifyHostname, OCSPResponse} or Write; once with the peer REFUSING the new ClientHello (what zcrypto and crypto/tls servers do: alert), once with the peer SERVING the renegotiation through an in-package scaffold (RFC 5746 3.7 server side) and sending data under the new keys afterwards [1, thorough 2 for the refused ones]. " +
 			"The connection under test is the client end; write||close (fresh), peer-close, big write and close||close are repeated with the SERVER end under test (thorough: also fresh write||read||state, read||write, read||close, peer drop, CloseWrite||read). Thorough additionally offers 1-byte transport reads as an environment deviation for the scenarios with a quiet handshake. " +
 			"Race pass: PB 1 (0 for the fresh-connection scenarios), thorough +1. Oracle per execution: no panic, no deadlock, no livelock (step horizon), every call returns, each writer's bytes arrive contiguous, unmodified and exactly once (or not at all when the write was cut by a close), readers get whole records, a pending read/write returns once the peer closed or the deadline expired; renegotiation: a refused attempt ends Read with an error, a served one completes and the data sent after it arrives, a Write beside it arrives whole (before the ClientHello or under the new keys) or fails. A worker process that dies with a Go runtime fatal error / unrecovered panic in the code under test is a violation (worker crash), not an incomplete run. states = executions.")
@@ -1276,7 +1387,7 @@ func main() {
 			"the scheduler hand-off is invisible to ThreadSanitizer, so a race report concerns only the program's own synchronisation",
 			"HandshakeContext with a cancellable context (interrupter goroutine + select) is outside the scheduler model and not explored",
 			"renegotiation: the serving peer is test scaffolding compiled into package tls (_inpkg: serverHandshake's full-handshake steps plus the RFC 5746 renegotiation_info, previous verify_data handed over from the client end); it is the peer, not code under test; when application data reaches it before the ClientHello it gives up, and its view of the stream is then only required to be an authentic prefix",
-			"the model transport never blocks a write and has no write deadline: SetWriteDeadline/SetDeadline are explored for races and for their effect on reads only",
+			"the model transport never blocks a write; its write deadline is a flag (expired or not at the moment it is set; virtual time does not advance in these scenarios): a transport write under an expired deadline fails with a timeout and delivers nothing; tls itself sets deadlines from the real clock around close_notify, which lie after the virtual clock and count as not expired",
 			"a loop in the code under test that contains no scheduling point cannot be interrupted by the cooperative scheduler: it ends as a killed worker (incomplete), not as a verdict")
 		self, _ := os.Executable()
 		raceBin := os.Getenv("C34_RACE_BIN")
